@@ -846,8 +846,27 @@ func init() {
 	externals["time.runtimeNow"] = func(fr *frame, args []value) value { return tuple{int64(1767225600), int32(0), int64(1)} }
 	externals["time.Sleep"] = func(fr *frame, args []value) value { return nil }
 	externals["time.After"] = func(fr *frame, args []value) value { return &mchan{never: true} }
+	// math/rand: fixed outputs (the properties do not depend on the numbers drawn), the documented argument panics kept
+	randN := func(name string, t types.Type, zero value) func(fr *frame, args []value) value {
+		return func(fr *frame, args []value) value {
+			n := args[len(args)-1]
+			if decideCond(binop(token.LEQ, t, n, zero)) {
+				panic(targetPanic{iface{types.Typ[types.String], "invalid argument to " + name}})
+			}
+			return zero
+		}
+	}
+	externals["math/rand.Int63n"] = randN("Int63n", types.Typ[types.Int64], int64(0))
+	externals["math/rand.Int31n"] = randN("Int31n", types.Typ[types.Int32], int32(0))
+	externals["(*math/rand.Rand).Int63n"] = randN("Int63n", types.Typ[types.Int64], int64(0))
+	externals["(*math/rand.Rand).Intn"] = randN("Intn", types.Typ[types.Int], 0)
+	externals["(*math/rand.Rand).Int63"] = func(fr *frame, args []value) value { return int64(4) }
+	externals["(*math/rand.Rand).Float64"] = func(fr *frame, args []value) value { return float64(0.25) }
+	type opaqueRand struct{}
+	externals["math/rand.New"] = func(fr *frame, args []value) value { return wrapNative(&opaqueRand{}) }
+	externals["math/rand.NewSource"] = func(fr *frame, args []value) value { return iface{} }
 	externals["math/rand.Int63"] = func(fr *frame, args []value) value { return int64(4) }
-	externals["math/rand.Intn"] = func(fr *frame, args []value) value { return 0 }
+	externals["math/rand.Intn"] = randN("Intn", types.Typ[types.Int], 0)
 	externals["math/rand.Int"] = func(fr *frame, args []value) value { return 4 }
 	externals["math/rand.Float64"] = func(fr *frame, args []value) value { return float64(0.25) }
 	externals["math/rand.Seed"] = func(fr *frame, args []value) value { return nil }
